@@ -183,6 +183,7 @@ func runWorkload(w workload) (msg string, maxInflight int32, evals int64) {
 						if salted[ti] {
 							d["salt"], d["saltn"] = salt, saltn
 							d["whoami"] = c09WhoAmI
+							d["nested"] = c09Nested
 							r.Set("who", salt)
 						}
 						r.SetThis(d)
@@ -243,7 +244,23 @@ func runWorkload(w workload) (msg string, maxInflight int32, evals int64) {
 		}(g)
 	}
 	close(start)
-	wg.Wait()
+	done := make(chan struct{})
+	go func() { wg.Wait(); close(done) }()
+	last, still := int64(-1), 0
+wait:
+	for {
+		select {
+		case <-done:
+			break wait
+		case <-time.After(time.Second):
+			if now := atomic.LoadInt64(&total); now != last {
+				last, still = now, 0
+			} else if still++; still >= 90 {
+				// not one evaluation has completed for 90 s while goroutines are still inside: they wait for each other
+				return fmt.Sprintf("%d goroutines evaluating concurrently: after %d evaluations none completed for 90 s - the evaluations block one another (sequentially each returns at once)", w.G, now), atomic.LoadInt32(&maxSeen), now
+			}
+		}
+	}
 	if firstMsg != "" {
 		return firstMsg, atomic.LoadInt32(&maxSeen), atomic.LoadInt64(&total)
 	}
@@ -265,6 +282,7 @@ func runWorkload(w workload) (msg string, maxInflight int32, evals int64) {
 				d := c08Data(er.j)
 				d["salt"], d["saltn"] = er.salt, er.saltn
 				d["whoami"] = c09WhoAmI
+				d["nested"] = c09Nested
 				r := formula.NewRunner()
 				r.Set("who", er.salt)
 				r.SetThis(d)
@@ -310,6 +328,22 @@ func runWorkload(w workload) (msg string, maxInflight int32, evals int64) {
 
 // c09Rejected: rejected texts that all goroutines parse at the same time.
 var c09Rejected = []string{strings.Repeat("amount * rate +\n", 1500) + "(total", "a ? b\r\n", strings.Repeat("[x,\u2028", 400) + "1 2"}
+
+// c09Inner is the formula c09Nested evaluates.
+var c09Inner = obs.Parse([]byte("max(n, 2) * 10 + len(s)")).Src
+
+// c09Nested is a host function that evaluates a formula of its own, the way a
+// host computes a derived field on demand.
+func c09Nested(ctx context.Context, n int) (int, error) {
+	r := formula.NewRunner()
+	r.SetThis(map[string]interface{}{"n": n, "s": "xy"})
+	v, err := r.Resolve(ctx, c09Inner.Expression)
+	if err != nil {
+		return 0, err
+	}
+	f, _ := v.(float64)
+	return int(f), nil
+}
 
 // c09WhoAmI is a host function that asks which runner is evaluating it, the way
 // RunnerFromCtx offers: the runner the caller put into the context, or none.
@@ -458,6 +492,8 @@ func fixedWorkloadTexts() []string {
 		// redundant, directly nested parentheses (an evaluator or analysis that "looks through" them must not do so by rewriting the tree)
 		"((i + f64)) * ((i64)) + (((s))) + ((( (dec) )))",
 		"[((m)).a, ((st.Name)), (( ((i)) > 1 ? ((s)) : ((n)) ))]",
+		// a host function that evaluates another formula (on a runner of its own) while the outer evaluation waits for it
+		"[nested(saltn), nested(saltn % 7) + 1, salt]",
 		// a host function that asks for "its" runner (RunnerFromCtx): the one its caller put into the context, or none
 		"[whoami(), salt, whoami() == salt || whoami() == 'nobody', fnC(saltn) + 0]",
 		// deep trees: a 150-term sum, 40 nested calls, a 60-step conditional ladder (many evaluator frames in flight at once)
